@@ -186,6 +186,7 @@ func dgemmParallel(aTrans, bTrans bool, m, n, k int, a []float64, lda int, b []f
 				if j+lenj > n {
 					lenj = n - j
 				}
+				verifBlock(true, i, j, leni, lenj)
 
 				cSub := sliceView64(c, ldc, i, j, leni, lenj)
 
